@@ -153,10 +153,13 @@ class SubsetGroup(HubListener):
         self.subsets.append(s)
 
     def _remove_data(self, data):
-        # remove a data object from group
+        # remove a data object from group - the subset is also removed from
+        # the dataset, otherwise a dataset that is added back later would end
+        # up with two subsets for this group (or keep one for a removed group)
         for s in list(self.subsets):
             if s.data is data:
                 self.subsets.remove(s)
+                s.delete()
 
     def register_to_hub(self, hub):
 
